@@ -877,8 +877,14 @@ example : ∃ t, compile exEntries = some t ∧ t.forBucket (rawHash 97 98) = [6
     (t.char? 97).map (·.chain) = some [5, 1] ∧ checkTable t [] = [] := by
   refine ⟨_, rfl, ?_, ?_, ?_⟩ <;> decide
 
-/-- the hypothesis is needed: a `context` entry is filed by the model like an ordinary rule, under the raw
-    hash, which in a finalised table with upper-case characters is not where the C code files it -/
+/-- the hypothesis is satisfiable … -/
 example : ∀ e ∈ exEntries, e.opcode ≠ CTO_Context := by decide
+
+/-- … and needed: the unrestricted statement is FALSE.  The model has no multipass compiler, so it files a
+    `context` entry like an ordinary rule — backward under its cells — whereas the property (and the C code)
+    file a `context` rule backward under its characters; the checker rejects the resulting table. -/
+example : ∃ t, compile [{ opcode := CTO_LowerCase, chars := [97], dots := [0x8001] },
+      { opcode := CTO_Context, chars := [97, 98], dots := [0x8001, 0x8002] }] = some t ∧ checkTable t [] ≠ [] := by
+  refine ⟨_, rfl, ?_⟩; decide
 
 end Lou.C12
